@@ -76,7 +76,7 @@ def productive(g):
     while ch:
         ch = False
         for p in g["prods"]:
-            if p["lhs"] not in pr and all(s in g["ts"] or s in pr for s in p["rhs"]):
+            if p["lhs"] not in pr and all(s in g["ts"] or s == "error" or s in pr for s in p["rhs"]):
                 pr.add(p["lhs"])
                 ch = True
     return pr
